@@ -916,19 +916,39 @@ def generate():
         "Definition mtmeth_fns : program :=", prog(mtmeth), "",
         "(* ... and the same four templates of the INTERFACE side (interface/mt.rs) *)",
         "Definition mtmeth_iface_fns : program :=", prog(mtmeth_i), "",
-        "(* sylvia-derive: decision logic of the macro - EntryPoints::emit (which entry points exist) and get_entry_point *)",
-        "Definition macro_fns : program :=", prog(macro), "",
-        "(* sylvia-derive: which body each operation of the generated `impl cw_multi_test::Contract` gets (contract/mt.rs) *)",
-        "Definition mtlogic_fns : program :=", prog(mtlogic), "",
+
+
         "(* sylvia/src/into_response.rs: IntoMsg / IntoResponse; `enabled_features` = the cargo features switched on *)",
         "Definition resp_program (enabled_features : list string) : program :=", prog(resp), ""])
+    global LAST_MACRO_TEXT
+    merr = [e for e in errors if e.startswith("macro logic")]
+    LAST_MACRO_TEXT = "\n".join([
+        "(* GENERATED on every run by py/verif/imp_translate.py from /repo/sylvia-derive/src (entry_points.rs,",
+        "   parser/attributes/override_entry_point.rs, contract/mt.rs): the macro's own decision logic. Do not edit.",
+        "   (A file of its own so that a change of the run-time library does not re-check the theorems about the macro.) *)",
+        "From Coq Require Import String List.", "Require Import SV.Model.Imp.", "Import ListNotations.",
+        "Open Scope string_scope.", ""] +
+        ["(* NOT TRANSLATED: %s *)" % e.replace("*)", "* )") for e in merr] + [
+        "(* EntryPoints::emit (which entry points exist) and get_entry_point *)",
+        "Definition macro_fns : program :=", prog(macro), "",
+        "(* which body each operation of the generated `impl cw_multi_test::Contract` gets (contract/mt.rs) *)",
+        "Definition mtlogic_fns : program :=", prog(mtlogic), ""])
     return text, errors
 
 
+LAST_MACRO_TEXT = None
+
+
 def write(text):
-    path = os.path.join(COQ, "theories", "Model", "GenImp.v")
-    old = open(path).read() if os.path.exists(path) else None
-    if old != text:
-        with open(path, "w") as f:
-            f.write(text)
-    return path
+    """GenImp.v and (from the same generate() call) GenImpMacro.v; a file is rewritten only when its text changes"""
+    out = None
+    for name, t in (("GenImp.v", text), ("GenImpMacro.v", LAST_MACRO_TEXT)):
+        if t is None:
+            continue
+        path = os.path.join(COQ, "theories", "Model", name)
+        old = open(path).read() if os.path.exists(path) else None
+        if old != t:
+            with open(path, "w") as f:
+                f.write(t)
+        out = out or path
+    return out
